@@ -107,6 +107,10 @@ FUN_LIBRARY = {
     "inc": (lambda x: x + 1),
     "sq": (lambda x: x * x),
     "lin2": (lambda x, y: x + 2 * y),
+    # implementations that are sensitive to the last digit of their argument: they must be handed the exact value
+    "ceil3": (lambda x: __import__("sympy").ceiling(3 * x)),
+    "parity": (lambda x: x % 2),
+    "floor3y": (lambda x, y: __import__("sympy").floor(3 * x) + y),
 }
 
 
@@ -177,7 +181,7 @@ def impl_hier_permute(case):
     from hier import permute_lists
 
     out = {}
-    perm = permute_lists(case["routine"], random.Random(case["seed"]), case.get("child_perm"))
+    perm = permute_lists(case["routine"], random.Random(case["seed"]), case.get("child_perm"), reverse=bool(case.get("reverse")))
     for tag, r in (("a", case["routine"]), ("b", perm)):
         try:
             out[tag] = dict(impl_hier_compile({"routine": r}), ok=True)
@@ -313,7 +317,12 @@ def impl_mismatch(case):
 
     flags = {"inexact": False}
     try:
-        c = compile_routine(to_qref(case["routine"])).routine
+        doc = to_qref(case["routine"])
+        if case.get("native"):
+            # sizes that are plain integer literals handed over as native numbers (size: 0, not size: "0")
+            from hier import native_numbers
+            doc = native_numbers(doc)
+        c = compile_routine(doc).routine
     except BaseException as e:  # noqa: BLE001
         if type(e).__name__ == "CaseTimeout":
             raise
@@ -335,7 +344,7 @@ def impl_mismatch(case):
             return type(e).__name__
 
     for _ in range(case["n_assign"]):
-        a = {p: rng.randint(1, 3) for p in c.input_params}
+        a = {p: rng.randint(case.get("lo", 1), 3) for p in c.input_params}
         cls = run([a])
         # the same assignment supplied in two successive evaluate calls (both orders) must have the same outcome
         keys = list(a)
